@@ -1074,6 +1074,69 @@ static void emit_level_of(const char* tag, int lvl, const DomainGeometry& geo, c
     printf("%s lvl=%d nr=%d nt=%d nc=%d bc=%d geo=- coef=- radii=%s angles=%s J=%s alpha=%s beta=%s rhs=%s\n", tag, lvl, nr, nt, g.numberSmootherCircles(), (int)dirbc, hexvec(g.radii()).c_str(),
            hexvec(g.angles()).c_str(), hexvec(J).c_str(), hexvec(al).c_str(), hexvec(be).c_str(), hexvec(f).c_str());
 }
+// The operators as the SOLVER reaches them: GMGPolar::setup() -> Level::initialize{Residual,Smoothing,ExtrapolatedSmoothing,DirectSolver}
+// -> Level::computeResidual / smoothing / extrapolatedSmoothing / directSolveInPlace.  Same records as h_ops (drivers residual / smooth /
+// direct), but every operator object is the one setup() created through the Level wrappers — with the option values the solver object
+// holds (strategy, boundary mode, cache flags, thread counts per level) — not one the harness constructed itself.
+static int mode_levelops(const std::string& what, int cases)
+{
+    Rng rng(seed_from_env());
+    for (int c = 0; c < cases; c++) {
+        int L = rng.range(2, 3);
+        Opts o = base_opts(rng, L == 2 ? 3 : 4);
+        o.set("ntheta_exp", L == 2 ? 3 : 4);
+        const int extrap = what == "smooth" ? rng.range(0, 3) : rng.range(0, 1);
+        o.set("maxLevels", L); o.set("extrapolation", extrap); o.set("FMG", 0);
+        o.set("maxOpenMPThreads", rng.pick(std::vector<int>{1, 2, 4}));
+        GMGPolar g;
+        o.apply(g);
+        g.setup();
+        GMGPolarVerif v(g);
+        if (v.levels() != L) { printf("SKIP levels=%d wanted=%d\n", v.levels(), L); continue; }
+        const char* strat = o.kv["stencilDistributionMethod"] == "1" ? "give" : "take";
+        const int threads = atoi(o.kv["maxOpenMPThreads"].c_str());
+        for (int l = 0; l < L; l++) {
+            Level& lv = v.level(l);
+            const PolarGrid& gr = lv.grid();
+            const int n = gr.numberOfNodes();
+            Vector<double> none;
+            auto rowmajor = [&](const Vector<double>& w) { std::vector<double> r(n); for (int i = 0; i < gr.nr(); i++) for (int j = 0; j < gr.ntheta(); j++) r[(size_t)i * gr.ntheta() + j] = w[gr.index(i, j)]; return r; };
+            std::vector<double> x(n), f(n);
+            for (auto& q : x) q = rng.uniform(-1, 1);
+            for (auto& q : f) q = rng.uniform(-1, 1);
+            Vector<double> xv(n), fv(n), out(n), tmp(n);
+            for (int i = 0; i < gr.nr(); i++) for (int j = 0; j < gr.ntheta(); j++) { xv[gr.index(i, j)] = x[(size_t)i * gr.ntheta() + j]; fv[gr.index(i, j)] = f[(size_t)i * gr.ntheta() + j]; }
+            if (what == "residual") {
+                emit_level_of("LV", l, v.geo(), v.coef(), gr, g.DirBC_Interior(), none);
+                lv.computeResidual(out, fv, xv);
+                printf("RES lvl=%d strat=%s cache=%s%s threads=%d x=%s f=%s out=%s\n", l, strat, o.kv["cacheDensityProfileCoefficients"].c_str(), o.kv["cacheDomainGeometry"].c_str(), threads,
+                       hexvec(x).c_str(), hexvec(f).c_str(), hexvec(rowmajor(out)).c_str());
+            }
+            else if (what == "smooth" && l + 1 < L) {
+                // level 0 holds the smoother(s) the extrapolation mode asks for, intermediate levels the standard smoother
+                const bool has_std = l > 0 || extrap == 0 || extrap == 2 || extrap == 3, has_ex = l == 0 && (extrap == 1 || extrap == 3);
+                for (int ex = 0; ex < 2; ex++) {
+                    if ((ex == 0 && !has_std) || (ex == 1 && !has_ex)) continue;
+                    if (ex == 1 && gr.nr() % 2 == 0) continue;
+                    emit_level_of("LV", l, v.geo(), v.coef(), gr, g.DirBC_Interior(), none);
+                    Vector<double> y = xv;
+                    fill_garbage(rng, tmp);
+                    if (ex) lv.extrapolatedSmoothing(y, fv, tmp); else lv.smoothing(y, fv, tmp);
+                    printf("SM ex=%d strat=%s threads=%d x=%s f=%s out=%s\n", ex, strat, threads, hexvec(x).c_str(), hexvec(f).c_str(), hexvec(rowmajor(y)).c_str());
+                }
+            }
+            else if (what == "direct" && l + 1 == L) {
+                emit_level_of("LV", l, v.geo(), v.coef(), gr, g.DirBC_Interior(), none);
+                Vector<double> b = fv;
+                lv.directSolveInPlace(b);
+                printf("DS strat=%s threads=%d b=%s x=%s mat=-\n", strat, threads, hexvec(f).c_str(), hexvec(rowmajor(b)).c_str());
+            }
+        }
+    }
+    printf("end\n");
+    return 0;
+}
+
 static int mode_concrete(int cases)
 {
     Rng rng(seed_from_env());
@@ -1151,6 +1214,7 @@ int main(int argc, char** argv)
     if (mode == "setup") return mode_setup(a);
     if (mode == "opsym") return mode_opsym(a);
     if (mode == "concrete") return mode_concrete(a);
+    if (mode == "levelops") return mode_levelops(argc > 2 ? argv[2] : "residual", argc > 3 ? atoi(argv[3]) : 10);
     fprintf(stderr, "usage: h_solver cycle|fmg|solve|reuse ...\n");
     return 2;
 }
